@@ -9,7 +9,7 @@ from ..forkpool import prepare_imports, run_cases
 from ..lattice import ALL, EMBEDDINGS, OffLattice
 from .. import tlc
 
-C02_CLAUSES = {"succeeds", "same_tiling", "same_areas", "same_centroids", "inherits", "fixed_uncut", "accessors",
+C02_CLAUSES = {"constructs", "succeeds", "same_tiling", "same_areas", "same_centroids", "inherits", "fixed_uncut", "accessors",
                "off_lattice", "no_result"}
 C12_CLAUSES = {"mbr_iff_changes", "refine_exact", "uniform_exact", "aligned", "loop_terminates"}
 
@@ -74,8 +74,9 @@ def run_alloc_case(case):
         try:
             try:
                 a = build(emb, case["cells"], den)
-            except ZeroDivisionError:
-                res[en] = {"skip": "module with zero total area cannot be constructed"}
+            except Exception as e:
+                # a valid allocation (pairwise non-overlapping lattice cells, ratios in [0,1]) must be constructible
+                res[en] = {"noconstruct": f"{type(e).__name__}: {e}"[:160]}
                 continue
             events = []
             for op in case["ops"]:
@@ -137,8 +138,10 @@ def decide(ctx: Ctx, cases: list[dict], clauses: set[str]):
         for en, evs in val.items():
             ctx.count()
             if isinstance(evs, dict):
-                if "skip" in evs:
-                    skipped += 1
+                if "noconstruct" in evs:
+                    if "constructs" in clauses:
+                        ctx.violation("constructs", {"den": c["den"], "nm": c["nm"], "cells": c["cells"], "ops": [], "event": 0,
+                                                     "embeddings": [en]}, evs, {"embedding": en, "clause": "constructs"})
                 elif "off_lattice" in clauses:
                     ctx.violation("off_lattice", {"case": c, "embedding": en}, evs, {"embedding": en})
                 continue
@@ -150,7 +153,6 @@ def decide(ctx: Ctx, cases: list[dict], clauses: set[str]):
                 traces[key] = t
                 owners[key] = {"embs": [], "why": whys, "ops": c["ops"]}
             owners[key]["embs"].append(en)
-    ctx.extra["skipped_unconstructible"] = ctx.extra.get("skipped_unconstructible", 0) + skipped
     verdicts = tlc.validate_traces(ctx, "AllocTrace", "AllocTrace", list(traces.values()), chunk=2000)
     for key, v in verdicts.items():
         t = traces[key]
